@@ -402,3 +402,9 @@ pub fn replay(part: &str, bytes: &[u8], case: &Value, stats: &mut Stats) -> Verd
         _ => part_a(bytes, stats),
     }
 }
+
+/// Byte-level entry for the fuzz target: layer A (in-process, stateful).
+pub fn fuzz_entry(bytes: &[u8]) -> Verdict {
+    let mut st = Stats::new();
+    part_a(bytes, &mut st)
+}
